@@ -19,7 +19,7 @@ loop {
 Texts with several sentinel occurrences are not covered by the theorem (they are by the correspondence run).
 -/
 namespace RbV.Sampled
-open RbV RbV.Kasai RbV.LF RbV.OccM
+open RbV RbV.Kasai RbV.LFMap RbV.OccM
 
 /-- `sample` vector built by `SuffixArray::sample` -/
 def sampleVec (sa : List Nat) (s : Nat) : List Nat :=
